@@ -144,6 +144,8 @@ def run(ctx: Ctx) -> None:
                 continue
             hugrs.append((f"hist:{k}", ad.h[1]))
         pairs = []
+        from hugr.hugr.render import DotRenderer
+        shared = DotRenderer()
         configs = [RenderConfig(palette=p, qualify_op_name=q) for p in PALETTE.values() for q in (False, True)]
         for name, h in hugrs:
             ctx.evaluations += 1
@@ -157,6 +159,17 @@ def run(ctx: Ctx) -> None:
             g = parse_dot(src)
             if len(g["nodes"]) == 0:
                 raise MachineryError("DOT reader found no node statements")
+            # the same renderer object used again (second and later renders): if its drawing differs from a fresh renderer's,
+            # it is judged by RenderCheck like any other drawing
+            try:
+                src2 = shared.render(h).source
+            except Exception as e:  # noqa: BLE001
+                ctx.violation({"check": f"reused renderer raised {type(e).__name__}"}, {"name": name}, "render succeeds", repr(e)[:300], clause="Render", leg="C2S")
+                src2 = src
+            if src2 != src:
+                g2 = parse_dot(src2)
+                pairs.append({"name": name + ":reused-renderer", "st": st,
+                              "g": {"nodes": [{k2: v for k2, v in nd.items() if k2 != "meta_shown"} for nd in g2["nodes"]], "clusters": g2["clusters"], "edges": g2["edges"]}})
             pairs.append({"name": name, "st": st, "g": {"nodes": [{k2: v for k2, v in nd.items() if k2 != "meta_shown"} for nd in g["nodes"]],
                                                         "clusters": g["clusters"], "edges": g["edges"]}})
             if S.same_structure(before, S.structure(h)) or project(h) != st:
@@ -190,7 +203,7 @@ def run(ctx: Ctx) -> None:
             if f:
                 case = {"name": p["name"]}
                 if p["name"].startswith("gen:"):
-                    case["generator_seed"] = int(p["name"][4:])
+                    case["generator_seed"] = int(p["name"].split(":")[1])
                 ctx.violation({"check": "+".join(sorted(f))}, case, "DrawingFaithful", sorted(f), clause="Render!" + sorted(f)[0], leg="C2S")
         if pairs:
             ctx.sample({"name": pairs[-1]["name"], "nodes": len(pairs[-1]["st"]["nodes"]), "links": len(pairs[-1]["st"]["links"]),
